@@ -4,9 +4,9 @@ Tie T(table): an in-package probe dumps the compiled `decoder` table and every c
 tools/x86table.py regenerates Gen/X86Table.lean (table + an untrusted per-pc certificate) and the chunk lemmas in which the
 Lean kernel re-checks the certificate for all 13 401 table positions.  Tie X: the hand-written interpreter model
 (Model/X86Dec.lean, executable as `goomdrv c16.dec`) and goom's real `x86asm.Decode` are run on the same byte strings and
-must give the same (err, Len, Op, PCRel, PCRelOff); a third decoder — the Go toolchain's own newer x86asm copy — is run on
+must give the same (err, Len, Op, PCRel, PCRelOff, Opcode — the numeric uint32 that fixBlock tests); a third decoder — the Go toolchain's own newer x86asm copy — is run on
 the same strings as an independent reference.  The property oracle (no panic, 1 <= Len <= 15 on success, Len <= len(src),
-PC-relative field inside the instruction, width 1/2/4) is applied to the implementation's answers alone.
+PC-relative field inside the instruction, width 1/2/4, a PC-relative instruction never has Opcode == 0) is applied to the implementation's answers alone.
 """
 import collections
 import os
@@ -264,6 +264,11 @@ def parse(obs):
     return d['err'], int(d['len']), d['op'], int(d['pcrel']), int(d['pcreloff'])
 
 
+def opcode_of(obs):
+    d = dict(p.split('=', 1) for p in obs.split())
+    return int(d.get('opcode', '0x0'), 16)
+
+
 def oracle(hexs, obs):
     """The property on the implementation's own answer."""
     if obs is None:
@@ -284,6 +289,10 @@ def oracle(hexs, obs):
         return f'PC-relative field [{off},{off + pcrel}) not inside the instruction of Len={ln}'
     if pcrel == 0 and off != 0:
         return 'PCRelOff set without PCRel'
+    if err == 'ok' and pcrel != 0 and opcode_of(obs) == 0:
+        return 'PC-relative instruction reported with Opcode == 0 (fix_addr_amd64.go:63 fixBlock would skip it)'
+    if err != 'ok' and opcode_of(obs) != 0:
+        return 'error return carries a non-zero Opcode'
     return None
 
 
@@ -406,7 +415,7 @@ def run(tier):
         'evaluations': len(ops) + sum(s.get('instrs', 0) for s in estats.values()),
         'distinct_nontrivial': nontrivial,
         'traces_validated_against_impl': len(ops) - len(diffs) if model is not None else 0,
-        'rule': 'one evaluation = one byte string decoded by goom (oracle applied) — ops stream: also by the Lean model (must be equal) and by '
+        'rule': 'observation = (err, Len, Op, PCRel, PCRelOff, Opcode uint32). one evaluation = one byte string decoded by goom (oracle applied) — ops stream: also by the Lean model (must be equal) and by '
                 'the reference (differences classified); text walk: every instruction of the listed ELF .text, goom vs reference in-process, '
                 'zero tolerance.  non-trivial = distinct byte string on which goom returns a real opcode (err=ok, Op != 0).',
         'distribution': {'lanes': dict(lanec), 'impl_result_classes': dict(errs), 'len_histogram': {str(k): v for k, v in sorted(lens_.items())},
